@@ -19,6 +19,8 @@ def is_tld_shape(tu):
     # in place?  A different algorithm (copy and compare, binary search, ...) is not judged here: exit 2, not an alarm.
     cmpf = ('strncasecmp', 'strcasecmp', 'strncmp', 'strcmp', 'memcmp')
     recognised = any(c[1] in cmpf and any(re.fullmatch(r".+->domain", a) for a in c[2][:2]) and start in c[2][:2] for p in paths for c in p.calls())
+    if recognised and any('tld_list[' in a for p in paths for c in p.calls() if c[1] in cmpf for a in c[2][:2]):
+        raise AnalysisBroken('is_tld walks the table by index (tld_list[i]) instead of by row pointer: the lookup-shape rule has no model for that form; re-confirm R7.2 / R11.0')
     if not recognised:
         alt = tld_copy_idiom(tu, paths, start, end)
         if alt is not None: return alt
